@@ -931,3 +931,194 @@ def opt_any(x, O):
     if isinstance(x, z3.ExprRef) and x.sort() == O:
         return x
     return O.some(x)
+
+
+# --------------------------------------------------------------------------
+# lookups of the loader: the first matching entry, Manifests of deeper directories first (C01, C11, C18)
+
+ManTuple = TupleT(Str, Str, Obj('ManifestFile'))
+
+
+def _load_for_path_model(it, bound, node):
+    """trusted call-site view of load_manifests_for_path: loads (and verifies) further Manifests -- the set of loaded
+    Manifests may grow -- or fails with one of its errors"""
+    ctx = it.ctx
+    it.engine.assumed.add('contract of ManifestRecursiveLoader.load_manifests_for_path assumed at the call site (may load '
+                          'further Manifests after verifying them, or raise)')
+    d = ctx.choose(3, 'load_manifests_for_path')
+    if d == 1:
+        raise PyRaise(VExc('GematoException', [], {}, line=getattr(node, 'lineno', None)))
+    if d == 2:
+        e = VExc('OSError', [], {}, line=getattr(node, 'lineno', None))
+        e.attrs['errno'] = VInt(ctx.fresh_const('errno', z3.IntSort()))
+        raise PyRaise(e)
+    me = bound['self']
+    ty = it.engine.field_type('loaded_manifests')
+    ctx.heap['loaded_manifests'] = z3.Store(ctx.field_array('loaded_manifests'), me.t, ctx.fresh_const('lmp!loaded', ty.sort()))
+    return NONE
+
+
+@contract('gemato/recursiveloader.py', 'ManifestRecursiveLoader.load_manifests_for_path', props=['C02'])
+def _(c):
+    c.params(self=RL, path=Str, recursive=Bool, verify=Bool)
+    c.trusted = True
+    c.model = _load_for_path_model
+    c.note('body (fixed-point loading through the pool) is outside the subset; its call sites and defaults are const/ obligations')
+
+
+def _iter_sorted_model(it, bound, node):
+    """trusted call-site view of _iter_manifests_for_path: the list made by sorted() from the generator whose contract
+    is proved (_iter_unordered_manifests_for_path); element facts are assumed per element where the list is iterated"""
+    it.engine.assumed.add('A-sort: sorted(gen, key=..., reverse=True) is a list of exactly the values the generator yields')
+    return ListT(ManTuple).fresh(it.ctx, 'manifests_for_path')
+
+
+@contract('gemato/recursiveloader.py', 'ManifestRecursiveLoader._iter_manifests_for_path', props=['C01'])
+def _(c):
+    c.params(self=RL, path=Str, recursive=Bool)
+    c.trusted = True
+    c.model = _iter_sorted_model
+
+
+def lmatch(env, e, rel, path):
+    """entry e of a Manifest in directory rel governs path: an IGNORE entry covering it by whole components, or a
+    file-type entry naming exactly it (DIST and TIMESTAMP entries name no local file)"""
+    full = join2(rel, e.path)
+    tag = e.tag
+    return z3.Or(z3.And(tag == STR('IGNORE'), comp_prefix(env, path, full)),
+                 z3.And(tag != STR('IGNORE'), tag != STR('DIST'), tag != STR('TIMESTAMP'), full == path))
+
+
+no_lmatch = S.Fold('no_loader_match', z3.BoolSort(), init=lambda env, rel, path: z3.BoolVal(True),
+                   step=lambda env, acc, e, idx, rel, path: z3.And(acc, z3.Not(lmatch(env, e, rel, path))),
+                   heap_fields=('__class__', 'path'), objects=True)
+
+_mt_rel = ManTuple.sort().accessor(0, 1)
+_mt_man = ManTuple.sort().accessor(0, 2)
+
+
+def _entries_of(env, mref):
+    arr = env._heap.get('entries')
+    if arr is None:
+        from vp.contract import initial_array
+        arr = initial_array(env._it.engine, 'entries')
+    return z3.Select(arr, mref)
+
+
+no_man_match = S.Fold('no_manifest_match', z3.BoolSort(), init=lambda env, path: z3.BoolVal(True),
+                      step=lambda env, acc, t, idx, path: z3.And(
+                          acc, no_lmatch(env, _entries_of(env, _mt_man(t)), z3.Length(_entries_of(env, _mt_man(t))), _mt_rel(t), path)),
+                      heap_fields=('__class__', 'path', 'entries'))
+
+
+@contract('gemato/recursiveloader.py', 'ManifestRecursiveLoader.find_path_entry.body', props=['C01'])
+def _(c):
+    c.trusted = True
+
+
+def _loader_find_path_entry():
+    c = REGISTRY_[('gemato/recursiveloader.py', 'ManifestRecursiveLoader.find_path_entry')]
+    del REGISTRY_[('gemato/recursiveloader.py', 'ManifestRecursiveLoader.find_path_entry.body')]
+    c.trusted = False        # the body is verified; callers keep the call-site model above (a weaker view of it)
+    c.props[:] = ['C01', 'C15', 'C18']
+    c.returns(Opt(PathEntry))
+    c.force_result = True
+    c.only_raises(*GEMATO_ERRORS)
+    c.loop(1, header='for (mpath, relpath, m) in self._iter_manifests_for_path(path)', vars={'e': None, 'fullpath': None},
+           inv=[('no-match-in-the-manifests-before', lambda s: no_man_match(s, s.seq, s.i, s.path))])
+    c.loop(2, header='for e in m.entries', vars={'fullpath': None},
+           inv=[('no-earlier-match-in-this-manifest', lambda s: no_lmatch(s, s.seq, s.i, s.cur.relpath, s.path))])
+
+    def post(s):
+        L = s.seq1
+        if s.result is None:
+            return no_man_match(s, L, z3.Length(L), s.path)
+        i, j = s.i1, s.i2
+        t = L[i]
+        ents = _entries_of(s, _mt_man(t))
+        return z3.And(i >= 0, i < z3.Length(L), j >= 0, j < z3.Length(ents), s.result.ref == ents[j],
+                      lmatch(s, s.result, _mt_rel(t), s.path),
+                      no_man_match(s, L, i, s.path), no_lmatch(s, ents, j, _mt_rel(t), s.path))
+    c.ensures('first-match-in-list-order-or-none', post, internal=True)
+
+
+from vp.contract import REGISTRY as REGISTRY_
+_loader_find_path_entry()
+
+
+def _first_match_contract(qual, header_outer, tuple_vars, match, name, props, params, extra_note=None):
+    """loader lookups of the same shape as find_path_entry: first entry in list order that satisfies `match`"""
+    inner = S.Fold('no_' + name, z3.BoolSort(), init=lambda env, *ps: z3.BoolVal(True),
+                   step=lambda env, acc, e, idx, *ps: z3.And(acc, z3.Not(match(env, e, *ps))),
+                   heap_fields=('__class__', 'path'), objects=True)
+    outer = S.Fold('no_man_' + name, z3.BoolSort(), init=lambda env, *ps: z3.BoolVal(True),
+                   step=lambda env, acc, t, idx, *ps: z3.And(
+                       acc, inner(env, _entries_of(env, _mt_man(t)), z3.Length(_entries_of(env, _mt_man(t))), *ps)),
+                   heap_fields=('__class__', 'path', 'entries'))
+
+    @contract('gemato/recursiveloader.py', qual, props=props)
+    def _(c):
+        c.params(**params)
+        c.returns(Opt(Entry))
+        c.force_result = True
+        c.only_raises(*GEMATO_ERRORS)
+        ps = lambda s: [getattr(s, p) for p in list(params)[1:]]
+        c.loop(1, header=header_outer, vars={'e': None},
+               inv=[('no-match-in-the-manifests-before', lambda s: outer(s, s.seq, s.i, *ps(s)))])
+        c.loop(2, header='for e in m.entries',
+               inv=[('no-earlier-match-in-this-manifest', lambda s: inner(s, s.seq, s.i, *ps(s)))])
+
+        def post(s):
+            L = s.seq1
+            if s.result is None:
+                return outer(s, L, z3.Length(L), *ps(s))
+            i, j = s.i1, s.i2
+            ents = _entries_of(s, _mt_man(L[i]))
+            return z3.And(i >= 0, i < z3.Length(L), j >= 0, j < z3.Length(ents), s.result.ref == ents[j],
+                          match(s, s.result, *ps(s)), outer(s, L, i, *ps(s)), inner(s, ents, j, *ps(s)))
+        c.ensures('first-match-in-list-order-or-none', post, internal=True)
+
+        def kind(s):
+            # what a caller may rely on without knowing the path taken: the entry returned is of the kind asked for
+            if s.result is None:
+                return z3.BoolVal(True)
+            r = s.result
+            from vp.contract import UnionView
+            if isinstance(r, UnionView):
+                return z3.Or(r.is_none, match(s, r.val, *ps(s)))
+            return match(s, r, *ps(s))
+        c.ensures('returns-an-entry-of-the-kind-asked-for', kind)
+        if extra_note:
+            c.note(extra_note)
+
+
+_first_match_contract('ManifestRecursiveLoader.find_timestamp', "for (mpath, p, m) in self._iter_manifests_for_path('')", None,
+                      lambda env, e: e.tag == STR('TIMESTAMP'), 'timestamp', ['C11', 'C02', 'C18'], {'self': RL})
+_first_match_contract('ManifestRecursiveLoader.find_dist_entry',
+                      "for (mpath, p, m) in self._iter_manifests_for_path(relpath + '/')", None,
+                      lambda env, e, filename, relpath: z3.And(e.tag == STR('DIST'), e.path == filename), 'dist',
+                      ['C10', 'C18'], {'self': RL, 'filename': Str, 'relpath': Str})
+
+
+@contract('gemato/recursiveloader.py', 'ManifestRecursiveLoader.set_timestamp', props=['C11', 'C10', 'C18'])
+def _(c):
+    c.params(self=RL, ts=Any)
+    c.returns(NoneT)
+    c.only_raises(*(GEMATO_ERRORS + ['KeyError']))
+    c.note('KeyError: only if the top-level Manifest is not loaded (it always is after __init__)')
+    c.requires('top-level-manifest-is-loaded',
+               lambda s: z3.Not(OptMF.is_none(z3.Select(s.self.loaded_manifests, s.self.top_level_manifest_filename))))
+
+    def post(s):
+        recs = [r for r in s._it.ctx.call_log if r[0].endswith('find_timestamp')]
+        found = recs[-1].result if recs else None
+        top = OptMF.val(z3.Select(s.self.loaded_manifests, s.self.top_level_manifest_filename))
+        ents_new = _entries_of(s, top)
+        ents_old = _entries_of(s.old, top)
+        if found is None:
+            n = z3.Length(ents_old)
+            last = s.obj(ents_new[n])
+            return z3.And(z3.Length(ents_new) == n + 1, z3.SubSeq(ents_new, 0, n) == ents_old,
+                          last.tag == STR('TIMESTAMP'), S.ubox(last.ts) == S.ubox(s.ts))
+        return z3.And(S.ubox(found.ts) == S.ubox(s.ts), ents_new == ents_old)
+    c.ensures('existing-timestamp-updated-else-one-appended-to-the-top-level-manifest', post, internal=True)
